@@ -197,7 +197,7 @@ type rawDump struct {
 func dumpEngine(mem *vfs.MemFS, path string) (rawDump, error) {
 	clone := crashClone(mem, true)
 	saved := nextOpen
-	nextOpen = openKnobs{fs: clone, memTable: 256 << 10}
+	nextOpen = openKnobs{fs: clone, memTable: 64 << 10}
 	eng, err := engine.Open(path, engine.Options{ReadOnly: true})
 	nextOpen = saved
 	if err != nil {
